@@ -24,11 +24,12 @@ def make_protocol(world, version=2, platform="ledger", pin=None):
     return cls(pin, dongle)
 
 
-def serving_manager(device=None, version=2, platform="ledger", flavour=None):
-    """A manager that went through a real bring-up against a device already in signer mode."""
+def serving_manager(device=None, version=2, platform="ledger", flavour=None, pin=None):
+    """A manager that went through a real bring-up against a device already in signer mode (or, given a PIN
+    object, through the bootloader)."""
     device = device or SimDevice(platform=platform, mode=MODE_SIGNER)
     world = World(device, flavour or ("hid" if platform == "ledger" else "tcp"))
-    proto = make_protocol(world, version, platform)
+    proto = make_protocol(world, version, platform, pin=pin)
     proto.initialize_device()
     world.bringup_len = len(world.log)
     return world, proto
